@@ -181,8 +181,8 @@ class MergerCheck(Check):
 
     def budget(self, tier):
         if tier == "quick":
-            return {"runs": 24000, "chunk": 250, "wall": 150, "run_timeout": 90, "min_wall": 30, "isolate": False}
-        return {"runs": 1200000, "chunk": 2000, "wall": 1500, "run_timeout": 90, "min_wall": 120, "isolate": False}
+            return {"runs": 24000, "chunk": 250, "wall": 150, "run_timeout": 90, "min_wall": 30}
+        return {"runs": 700000, "chunk": 2000, "wall": 1500, "run_timeout": 90, "min_wall": 120}
 
     def preload(self):
         global KB_NA
@@ -198,6 +198,20 @@ class MergerCheck(Check):
             return self._gen_cut_and_merge(rng, tier)
         if rng.random() < (0.004 if tier == "quick" else 0.002):
             return self._gen_long_chain(rng)
+        if rng.random() < 0.1 and not getattr(self, "_in_multi", False):
+            # several independent callers in one process: unrelated histories on unrelated matrices, interleaved
+            self._in_multi = True
+            try:
+                subs = []
+                while len(subs) < rng.randint(2, 5):
+                    sub = self.generate(rng, tier)
+                    if sub["kind"] == "history" and sub["matrix"]["n"] <= 40:
+                        subs.append(sub)
+            finally:
+                self._in_multi = False
+            order = [i for i, sub in enumerate(subs) for _ in sub["ops"]]
+            rng.shuffle(order)
+            return {"kind": "multi", "subs": subs, "order": order, "ops": []}
         big = rng.random() < 0.3
         if big:
             n = rng.randint(30, 150)
@@ -417,6 +431,7 @@ class MergerCheck(Check):
         return {"kind": "cut_and_merge", "n": n, "pairs": pairs, "energies": energies, "T": T,
                 "lower": lower, "upper": upper, "seed": rng.randrange(2 ** 32),
                 "D": rng.choice([1.0, 1.0, 2.0 ** -40, 2.0 ** -20, 2.0 ** 30]),
+                "second_T": rng.choice([None, 100.0, 150.0, 350.0, 600.0]),
                 "fmt": rng.choice(["coo", "csr"]), "ops": []}
 
     def _gen_huge_cut_and_merge(self, rng):
@@ -509,6 +524,8 @@ class MergerCheck(Check):
 
     # ------------------------------------------------------------------ execution
     def execute(self, scenario: dict) -> dict:
+        if scenario["kind"] == "multi":
+            return self._exec_multi(scenario)
         if scenario["kind"] == "cut_and_merge_huge":
             return self._exec_huge(scenario)
         if scenario["kind"] == "cut_and_merge":
@@ -574,7 +591,43 @@ class MergerCheck(Check):
                 raise Violation("symmetry", f"{what}: symmetric input gave an asymmetric result")
         return accepted
 
+    def _exec_multi(self, sc: dict) -> dict:
+        """Independent histories advanced in an interleaved order inside one process; each is judged on its own."""
+        gens = [self._history_steps(sub) for sub in sc["subs"]]
+        results = [None] * len(gens)
+        for i in sc["order"] + list(range(len(gens))) * 40:
+            if results[i] is not None:
+                continue
+            try:
+                next(gens[i])
+            except StopIteration as stop:
+                results[i] = stop.value
+            if all(r is not None for r in results):
+                break
+        faults, probes = {"interleaved_independent_histories": 1}, {}
+        events = 0
+        for r in results:
+            if r is None:
+                continue
+            events += r["events"]
+            for k, v in r["faults"].items():
+                faults[k] = faults.get(k, 0) + v
+            for k, v in r["probes"].items():
+                probes[k] = probes.get(k, 0) + v
+        return {"events": events, "fingerprint": "|".join(r["fingerprint"] for r in results if r), "faults": faults,
+                "probes": probes, "sig": repr(["multi"] + [r["sig"] for r in results if r]), "nontrivial": True,
+                "inter": repr(sc["order"])}
+
     def _exec_history(self, sc: dict) -> dict:
+        g = self._history_steps(sc)
+        while True:
+            try:
+                next(g)
+            except StopIteration as stop:
+                return stop.value
+
+    def _history_steps(self, sc: dict):
+        """The history as a cooperative task: yields after every operation (a pre-emption point for _exec_multi)."""
         from scipy.sparse import csr_array
         rm = self.rm
         spec = sc["matrix"]
@@ -693,6 +746,7 @@ class MergerCheck(Check):
                 changed_ops += 1
             sig.append((op["op"], tuple(sorted(set(op.get("faults", [])))), len(model.groups)))
             log.add("caller", op["op"], op.get("lists", op.get("cells")), [len(model.groups), digest_array(np.asarray(cur_d))])
+            yield step
         nontrivial = (changed_ops >= 2 or sum(faults.values()) >= 1) and len(sc["ops"]) >= 1
         return {"events": log.n, "fingerprint": log.digest(), "faults": faults, "probes": probes,
                 "sig": repr(sig), "nontrivial": nontrivial,
@@ -778,6 +832,32 @@ class MergerCheck(Check):
                 raise Violation("cm-list-rows", f"{what}: {len(il)} groups for {Rarr.shape[0]} rows")
             self._check_state(log, Q0, spec, [model.groups], R, il, model.deleted_any, what, exact=False)
         log.add("sqra", "cut_and_merge", [n, lower, upper], [None if il is None else len(il), digest_array(Rarr)])
+        if sc.get("second_T") and lower is not None:
+            # the same SQRA object asked again at another temperature (a temperature scan of the lumping)
+            T2 = sc["second_T"]
+            what2 = f"second cut_and_merge on the same object (T={T2}, lower={lower}, upper={upper})"
+            with lib_call(what2):
+                Q2 = sq.get_rate_matrix(sc.get("D", 1.0), T2)
+                R2, il2 = sq.cut_and_merge(Q2.copy(), T=T2, lower_limit=lower, upper_limit=upper)
+            m2 = PartitionModel(n)
+            deltas = [abs(E[a] - E[b]) * 1000 / (KB_NA * T2) for a, b in zip(rows, cols)]
+            ev2 = [E[i] * 1000 / (KB_NA * T2) for i in range(n)]
+            borderline = any(abs(x - lower) < 1e-7 for x in deltas) or \
+                (upper is not None and any(abs(x - upper) < 1e-7 for x in ev2))
+            joins2 = [[int(a), int(b)] for (a, b), dlt in zip(zip(rows, cols), deltas) if dlt < lower]
+            m2.groups = m2.merged(joins2, raw=False)
+            ok_to_judge = not borderline
+            if upper is not None:
+                hot = [i for i in range(n) if ev2[i] > upper]
+                exp2 = m2.deleted(hot)
+                if len(exp2) == 0:
+                    ok_to_judge = False
+                m2.groups = exp2
+                m2.deleted_any = True
+            if ok_to_judge and il2 is not None:
+                self._check_state(log, Q2.toarray(), {"kind": "gen_asym", "n": n}, [m2.groups], R2, il2,
+                                  m2.deleted_any, what2, exact=False)
+                probes["cm_second_call_other_temperature"] = 1
         sig = ["cm", _bucket(n), lower is not None, upper is not None, len(model.groups) < n, il is None]
         return {"events": log.n, "fingerprint": log.digest(), "faults": {}, "probes": probes, "sig": repr(sig),
                 "nontrivial": lower is not None or upper is not None,
